@@ -83,7 +83,20 @@ def check(chk):
     chk.judge('i if i < index else i - 1' in src(di) and 'self._items.pop(index)' in src(di), 'C33.paired', di, '__delitem__ renumbers the entries after the removed position', 'deletion no longer renumbers later entries')
     ins = m.func('OrderedMap._insert')
     s = src(ins)
-    chk.judge('if i >= 0' in s and 'self._items[i] = (key, value)' in s and 'self._index[flat_key] = len(self._items) - 1' in s and s.index('self._items.append') < s.index('self._index[flat_key] ='), 'C33.paired', ins,
+    from .. import sem as _sem33
+    g33, fl33 = _sem33.flow_of(ins)
+
+    def _entry(e):
+        e = _sem33.resolve(ins, e)
+        return isinstance(e, ast.Tuple) and [src(x) for x in e.elts] == ['key', 'value']
+    repl = [n for n in g33.stmt_nodes() if n.kind == 'stmt' and isinstance(n.ast, ast.Assign) and src(n.ast.targets[0]) == 'self._items[i]']
+    apps33 = [n for n in g33.stmt_nodes() if n.kind == 'stmt' and isinstance(n.ast, ast.Expr) and isinstance(n.ast.value, ast.Call) and src(n.ast.value.func) == 'self._items.append']
+    idx33 = [n for n in g33.stmt_nodes() if n.kind == 'stmt' and isinstance(n.ast, ast.Assign) and src(n.ast.targets[0]) == 'self._index[flat_key]']
+    ok33 = len(repl) == 1 and len(apps33) == 1 and len(idx33) == 1 and _entry(repl[0].ast.value) and _entry(apps33[0].ast.value.args[0]) and \
+        src(idx33[0].ast.value) == 'len(self._items) - 1' and g33.dominates(apps33[0], idx33[0]) and \
+        all(fa.knows('i < 0') is False for fa, _c in fl33.at(repl[0])) and all(fa.knows('i < 0') is True for fa, _c in fl33.at(apps33[0])) and \
+        "self._index.get(flat_key, -1)" in s
+    chk.judge(ok33, 'C33.paired', ins,
               '_insert: existing key keeps its position; a new key is appended and indexed at the last position', 'insert position bookkeeping changed')
     sk = m.func('OrderedMapSerializedKey._serialize_key')
     chk.judge('self.cass_key_type.serialize(key, self.protocol_version)' in src(sk), 'C33.key', sk, 'map-column keys are identified by their CQL encoding', 'key identity changed')
